@@ -107,7 +107,10 @@ def check_end_to_end(ctx, idx):
             continue
         true_dones = [mr["done"] for mr in model_rows]
         last = float(policy.value(post_e.policy_state, env.observation(post_e.env_state, key=jr.key(0)))[1])
-        rew = [r["reward"] for r in rows]
+        # rewards as the environment and the critic determine them (model replay of the finite MDP: table
+        # reward, plus gamma * V(pre-reset successor observation) on steps ended only by truncation) — not
+        # the recorded ones, so that nothing recorded after an episode end can leak into the reference
+        rew = [mr["reward"] for mr in model_rows] if len(model_rows) == len(rows) else [r["reward"] for r in rows]
         val = [r["value"] for r in rows]
         adv, ret = np.asarray(buf_e.advantages, np.float64), np.asarray(buf_e.returns, np.float64)
         out = ctx.drv.call("gae", gamma=gamma, lam=lam, rewards=rew, values=val, dones=true_dones, last=last,
